@@ -1,6 +1,6 @@
 (* C09 property theorems. This file contains only statements closed by
    [exact lemma] and Print Assumptions. *)
-From V Require Import Common.Base C09.Cache C09.CacheProofs C09.OptionFields C09.OptionFieldsProofs.
+From V Require Import Common.Base C09.Cache C09.CacheProofs C09.OptionFields C09.OptionFieldsProofs C09.Watch C09.WatchProofs.
 From V Require Import gen.OptionFieldsGen.
 Require Import Coq.Strings.String.
 Open Scope string_scope.
@@ -92,3 +92,33 @@ Theorem coverage_implies_memo_transparent :
                   = map (fun c => parse (fst c) (snd c)) calls.
 Proof. exact covered_table_memo_transparent. Qed.
 Print Assumptions coverage_implies_memo_transparent.
+
+(* ---- watch mode ----
+   For EVERY log of observations (ReadDirectory, per-name lookups, full
+   listings, ReadFile, ModKey) made on a file system w, in which each path is
+   observed either as a directory or as a file, and every later file system w':
+   if none of the watch predicates computed by WatchData() is dirty on w', then
+   every observation of the log answers on w' what it answered on w - in
+   particular the "looked for and not found" lookups (wasPresent = false,
+   stateFileMissing, stateDirUnreadable).  Hypotheses on paths read as files:
+   each is a readable regular file or absent in both worlds (coherent_at), an
+   unchanged usable mod key means unchanged contents, a real mod key is not the
+   zero value.  Not covered (no watch record exists): the kind of an entry
+   (lstat) and the original-case spelling of a present entry. *)
+Theorem watch_covers_observations :
+  forall w w' log,
+    (forall o, In o log -> wf_path log (obs_path o)) ->
+    (forall o, In o log -> is_file_op o = true -> file_hyps w w' (obs_path o)) ->
+    clean w' (finalize w (record w log)) = true ->
+    all_same w w' log = true.
+Proof. exact watch_covers_observations_all. Qed.
+Print Assumptions watch_covers_observations.
+
+(* without "each path is observed either as a directory or as a file" the
+   statement is false of the faithful model (finding F, replayed on the real
+   code by harness stream c09/known): a directory whose listing was consulted
+   for a missing name and that is afterwards read as a file loses its record *)
+Theorem watch_covers_observations_unrestricted_refuted :
+  clean f_w' (finalize f_w (record f_w f_log)) = true /\ all_same f_w f_w' f_log = false.
+Proof. exact watch_unrestricted_refuted. Qed.
+Print Assumptions watch_covers_observations_unrestricted_refuted.
